@@ -18,7 +18,7 @@ class Prop(GraphProp):
             "final target raises (or is NaN) and the target must still equal the un-poisoned value. non-trivial = at "
             "least 3 value-returning requests with at least one Hamiltonian term of order >= 1 evaluated; distinct = "
             "distinct sha256 of the event log")
-    probes = ["poison_runs", "poison_target_ok", "cb_H", "op_array", "multi_comp_world", "fmt_scalar_idx",
+    probes = ["fmt_implicit", "poison_runs", "poison_target_ok", "cb_H", "op_array", "multi_comp_world", "fmt_scalar_idx",
               "fmt_scalar_vecs", "fmt_dict", "fmt_list", "h_term_order_ge2"]
     assumptions = ["only evaluations of the caller's Hamiltonian callback are observed (cache hits are not calls)",
                    "chained computations are excluded (their callback legitimately evaluates another computation)"]
